@@ -479,6 +479,14 @@ func Run(run *kernel.Run, prop string) {
 			w.opWipeKeyBuffer(step)
 		case 9:
 			w.opPreHashBurst(step)
+		case 10:
+			// the garbage collector as a fault the tape decides: one or two
+			// complete collections (two empty every sync.Pool), finalizers
+			// run to completion, between two operations of the history
+			n := 1 + w.t.Choose("ops", "gc.n", 2)
+			kernel.CollectGarbage(n)
+			w.r.Fault(fmt.Sprintf("garbage_collected_x%d", n))
+			w.r.Hist("%d gc x%d", step, n)
 		}
 		w.checkHeld(step)
 	}
@@ -488,13 +496,13 @@ func Run(run *kernel.Run, prop string) {
 }
 
 func (w *World) opWeights() []int {
-	// kinds: ecdsa, variation, schnorr, sampler(hook), generatekey, drbg, schnorr-variation, long history
-	base := []int{8, 6, 3, 2, 1, 1, 1, 2, 1, 0}
+	// kinds: ecdsa, variation, schnorr, sampler(hook), generatekey, drbg, schnorr-variation, long history, wipe key buffer, pre-hash burst, garbage collection
+	base := []int{8, 6, 3, 2, 1, 1, 1, 2, 1, 0, 1}
 	switch w.prop {
 	case "C14":
-		base = []int{2, 1, 10, 0, 0, 0, 5, 0, 1, 1}
+		base = []int{2, 1, 10, 0, 0, 0, 5, 0, 1, 1, 1}
 	case "C08":
-		base = []int{10, 5, 1, 0, 1, 0, 0, 4, 1, 0}
+		base = []int{10, 5, 1, 0, 1, 0, 0, 4, 1, 0, 1}
 	}
 	// swarm: knock out or boost some kinds per run
 	out := make([]int, len(base))
